@@ -57,6 +57,20 @@ def gen_history(R, tier):
                     'variant': R.randrange(3)})
         if kind == 'origin' and out == 'ok':
             have_origin[lf] = True
+    if R.random() < 0.2:
+        # identity stress: several same-named objects in ONE set, with and without an explicit origin reference, all
+        # created before the logical file's first origin, which then takes that same reference explicitly
+        lf = R.randrange(n_lf)
+        ops = [o for o in ops if not (o['lf'] == lf and o['kind'] == 'origin')]
+        k = R.choice([5, 128])
+        kind = R.choice(SIMPLE[1:11])
+        sn0 = None if n_lf == 1 else f'Q{lf}'
+        for _ in range(R.choice([2, 3, 4])):
+            ops.append({'lf': lf, 'kind': kind, 'sn': sn0, 'name': R.choice(['A', 'B']), 'oref': R.choice([None, k]),
+                        'out': 'ok', 'variant': 0})
+        ops.append({'lf': lf, 'kind': 'origin', 'sn': (f'O{lf}' if n_lf > 1 else None), 'name': 'ORG', 'oref': k,
+                    'out': 'ok', 'variant': 0})
+        have_origin[lf] = True
     # make every logical file complete: origin (maybe), one channel + frame in sets of its own
     for lf in range(n_lf):
         if not have_origin[lf] and R.random() < 0.9:
